@@ -3,7 +3,7 @@ import numpy as np
 from lib import common as C, models as M
 
 GEN = ['BlockFacts']
-IMPORTS = ['C03/basis_product', 'C03/mul_den', 'C03/rs_matrix_den', 'C03/rmatmul_den', 'C03/add_den', 'C03/dense_add_den', 'C14/compose_is_block_product', 'C14/apply_is_block_matvec', 'C14/pack_unpack_index']
+IMPORTS = ['C03/basis_product', 'C03/mul_den', 'C03/rs_matrix_den', 'C03/rmatmul_den', 'C03/add_den', 'C03/dense_add_den', 'C14/compose_is_block_product', 'C14/apply_is_block_matvec', 'C14/pack_unpack_index', 'C03/prune_thresholds']
 TRUSTED = ['numpy.linalg.solve / scipy lu_solve deliver the inverse of the packed target-unknown Jacobian (hypothesis H_U Hinv = 1 of the theorem)',
            'chain rule along the DAG (C04), container algebra (C14)']
 ASSUMPTIONS = ['executable correspondence at horizon 1 with two unknowns/targets (rational model, proved to zero both targets); larger horizons and more unknowns: structural facts extracted from block.py plus the residual oracle on the implementation',
